@@ -76,8 +76,8 @@ CLAIMS = {
              "monitored hypothesis. Python set iteration order in the greedy pairing is not modelled (any complete pairing satisfies the theorem).",
         ref="§7 C06"),
     "C12": dict(
-        technique="Lean 4 proof (translated cut mask; cumulative-sum renumbering = order-preserving bijection; trailing-edge loop = greatest sub-list without degree-one vertices; permutation bookkeeping) + exact correspondence",
-        text="Kernel-checked theorems: the boundary mask regenerated from the source is non-zero iff the edge crosses no selected boundary; masks keep row order and keep "
+        technique="Lean 4 proof (translated cut mask; cumulative-sum renumbering = order-preserving bijection; trailing-edge loop = greatest sub-list without degree-one vertices; permutation bookkeeping; angular order is a strict weak order ⇒ re-sorting the surviving edges = thinning out the old cyclic order ⇒ untouched faces survive) + exact correspondence",
+        text="Kernel-checked theorems: rotAt_thinned — the angular comparison of the model (quadrant + cross product, exact) is asymmetric and negatively transitive on non-zero vectors (angLt_asymm, angLt_negTrans), so the insertion sort of the surviving incident edges of a vertex equals the old sorted list with the deleted edges dropped (foldl_insertDesc_filter), for every vertex and every set of deleted edges; with face_survives this gives 'a plaquette none of whose edges was removed is a plaquette of the output' for the recomputed adjacency (edge labels kept; the renumbering is newIndex_spec). The boundary mask regenerated from the source is non-zero iff the edge crosses no selected boundary; masks keep row order and keep "
              "edges aligned with their crossings; vertices untouched by cutting; new_index[v] is the position of v among the kept vertices (order-preserving bijection "
              "onto 0..k-1, strictly monotone, positions follow), an edge survives iff both ends are kept and the reported set is its complement; the trailing-edge "
              "loop yields a sub-list without degree-one vertices that contains every such sub-list (multigraphs included) and is idempotent; for a permutation, "
@@ -142,16 +142,16 @@ CLAIMS = {
              "list-based exact evaluator and the Mathlib definition are the same formula by inspection, not by a Lean lemma.",
         ref="§7 C18"),
     "C08": dict(
-        technique="Lean 4 proof (plane-wave intertwining over any commutative ring and finite abelian group of cells; Hermiticity; Complex.exp character laws) + exact Gaussian-integer correspondence",
+        technique="Lean 4 proof (plane-wave intertwining over any commutative ring and finite abelian group of cells; character orthogonality ⇒ charpoly(tiled) = ∏ over characters of charpoly(Bloch); Hermiticity; Complex.exp character laws) + exact Gaussian-integer correspondence",
         text="Kernel-checked theorems: for every commutative ring, every finite abelian group G of cells, every multiplicative φ and every list of bonds (parallel bonds add), "
              "the real-space matrix of the tiling maps the plane wave φ⊗v to φ⊗(Bloch(φ)·v), so every Bloch eigenvector lifts to an eigenvector of the tiled matrix with the same "
              "eigenvalue — this fixes the sign and direction of the crossing vector, the conjugate placement and the accumulation; at the trivial character the Bloch matrix is the "
              "real-space matrix of the cell; for unitary characters and conjugate weights it is Hermitian; koala's characters exp(i k·δ) are multiplicative, 2π-periodic in each "
-             "component and equal to 1 on whole-system translations at the allowed momenta 2π(m_x/n_x, m_y/n_y). Entries of k_hamiltonian at momenta in (π/2)ℤ² are compared with the "
+             "component and equal to 1 on whole-system translations at the allowed momenta 2π(m_x/n_x, m_y/n_y). charpoly_tiled_eq_prod_bloch: for every finite abelian group G of cells and every list of complex bonds, the characteristic polynomial of the tiled matrix equals the product over all characters ψ of G of the characteristic polynomials of the Bloch matrices — the plane waves of all characters form an invertible matrix (character orthogonality, Mathlib's AddChar.sum_apply_eq_ite), the tiled matrix is conjugate to the block-diagonal matrix of Bloch matrices, and charpoly of a block-diagonal matrix is the product (charpoly_blockDiagonal): the union of the Bloch spectra IS the tiled spectrum, with multiplicities. Entries of k_hamiltonian at momenta in (π/2)ℤ² are compared with the "
              "exact Gaussian-integer model; the union over allowed momenta of eigvalsh(H_k) is compared with the spectrum of koala's own n_x×n_y tiling (1×1..4×4, rectangular, "
              "multigraph cells, random u/J/colouring or None), Hermiticity, periodicity, k=0 and the three analysis helpers are evaluated on the implementation.",
-        note="Trusted: Lean kernel/Mathlib/standard axioms; harness; LAPACK eigvalsh (1e-9); exp at multiples of π/2 to 1e-12. Linear independence of the n_x·n_y plane waves (so that the "
-             "lifted eigenvectors exhaust the tiled spectrum) is standard character orthogonality and is not proved; the full multiset equality is decided numerically. The "
+        note="Trusted: Lean kernel/Mathlib/standard axioms; harness; LAPACK eigvalsh (1e-9); exp at multiples of π/2 to 1e-12. That the characters of ℤ/n_x×ℤ/n_y are exactly the exp(i k·δ) at the allowed momenta is standard and used in words (chi_allowed proves one direction); the numerical "
+             "multiset equality is still evaluated on the implementation. The "
              "analysis helpers are decided on the implementation (cells with an odd number of sites are excluded: 'lower half' undefined).",
         ref="§7 C08"),
     "C15": dict(
@@ -248,11 +248,11 @@ CLAIMS = {
              "Parallel/colinear branches of line_intersection (tolerance based) are outside 'general position'.",
         ref="§7 C16"),
     "C17": dict(
-        technique="Lean 4 proof (floor step across one grid line; index difference ±e_b ⇒ edge = ± star vector; rhombus at every grid vertex) + exact re-check in index space + output oracle",
+        technique="Lean 4 proof (floor step across one grid line; index difference ±e_b ⇒ edge = ± star vector; rhombus at every grid vertex; unit edge length and rhombus angles for (cos a_b, sin a_b); only two rhombi for five bundles) + exact re-check in index space + output oracle",
         text="Kernel-checked: the pentagrid index (floor) is unchanged when no integer is crossed and rises by exactly one across exactly one grid line; for index vectors in ℤ^B and "
              "star vectors in any abelian group, faces whose indices differ by e_b are mapped to points differing by exactly star_b (−star_b for −e_b), so every edge is parallel to a "
              "star direction and all edges have one length; the four faces round a grid vertex map to a parallelogram with sides star_b1, star_b2 (a rhombus); index vectors equal "
-             "modulo a relation among the star vectors map to the same point; the executable edge test is sound. Index vectors are reconstructed from koala's output along a spanning "
+             "modulo a relation among the star vectors map to the same point; the executable edge test is sound; for koala's star vectors (cos a_b, sin a_b), any angles (with or without disorder): every edge has squared length exactly 1 before the common rescaling (edge_length_one), the sides of the rhombus at a grid vertex of bundles b1, b2 enclose the angle a_b1 − a_b2 (rhombus_angle), and for five bundles at angles 2πb/5 the cosine of that angle is cos 72° or cos 144° — only the two Penrose rhombi (penrose_rhombi). Index vectors are reconstructed from koala's output along a spanning "
              "tree and the model re-checks exactly that every edge's index difference is ±e_b and that all index vectors are distinct modulo the cyclotomic relations; the statement "
              "(unit square, connected, equal lengths, rhombi, star directions/Penrose angles, no crossings, no coincident vertices, no dangling edges, V−E+F=1) is evaluated on the "
              "output for B∈{3,5,7,9}, default/scalar/random/generic offsets, angle disorder and penrose_tiling seeds.",
